@@ -1192,6 +1192,117 @@ def mon_c18(case, obs):
 
 
 PROPS['C18'] = {'gen': gen_c18, 'monitors': [mon_c18]}
+# ----------------------------------------------------------------------------- C12
+
+HOSTILE_PTR = [0, 4, 0x80, 0x1fffc, 0x20000, 0x200000, 0x200003, 0x20000f, 0x20003c, 0x200040, 0x400000, 0x400002, 0x400004, 0x500000, 0x500002,
+               0x600000, 0x601ffc, 0x602000, 0x6ffffc, 0x700000, 0x700001, 0x700002, 0x7ffffc, 0x7ffffe, 0x800000, 0x80000000, 0xfffffffc, 0xffffffff]
+
+
+def gen_c12(tier, seed):
+    g = G('w', seed)
+    r = g.rnd
+    n = 2500 if tier == 'quick' else 120000
+
+    def hostile_regs():
+        regs = {}
+        for i in range(16):
+            c = r.random()
+            regs[i] = r.choice(HOSTILE_PTR) if c < 0.45 else (r.choice(BOUNDARY32) if c < 0.6 else r.randrange(1 << 32))
+        return regs
+
+    def duart_writes():
+        ops = []
+        for _ in range(r.randrange(0, 6)):
+            ops.append('wb:%x:%x' % (0x200000 + r.choice([3, 7, 0xb, 0xf, 0x13, 0x17, 0x23, 0x27, 0x2b, 0x2f, 0x3b, 0x3f, r.randrange(64)]), r.randrange(256)))
+        if r.random() < 0.3:
+            ops += ['qa:%x' % r.randrange(256), 'qb:%x' % r.randrange(256)]
+        if r.random() < 0.3:
+            ops += ['md:%x' % r.randrange(256), 't:%x' % r.randrange(1 << 28)]
+        return ops
+
+    all_opcodes = sorted(set(OP.values()))
+    for i in range(n):
+        regs = hostile_regs()
+        pc = r.choice([PC0, PC0 + 1, 0x7ffff0, 0x7ffffd, 0x1fff8, 0x601ff8, r.choice(HOSTILE_PTR)]) if r.random() < 0.8 else r.randrange(1 << 32)
+        c = r.random()
+        if c < 0.35:
+            code = [r.randrange(256) for _ in range(40)]
+            kind = 'random-bytes'
+        elif c < 0.75:
+            # a defined opcode with random descriptors (mostly decodable) and hostile operand addresses
+            o = r.choice(all_opcodes)
+            code = ([o] if o < 0x100 else [o >> 8, o & 0xff])
+            for _ in range(4):
+                code += r.choice([reg(r.randrange(15)), regdef(r.choice([0, 1, 2, 3, 9, 10, 12, 13, 14])), absa(r.choice(HOSTILE_PTR)), absdef(r.choice(HOSTILE_PTR)),
+                                  wdisp(r.randrange(11), r.choice(HOSTILE_PTR)), bdispdef(r.randrange(11), r.randrange(256)), immw(r.choice(BOUNDARY32)),
+                                  lit(r.randrange(-16, 64)), ex(r.choice(list(ETYPE)), reg(r.randrange(9))), [r.randrange(256)], hdisp(12, r.randrange(65536))])
+            code += [r.randrange(256) for _ in range(8)]
+            kind = 'opcode-hostile-operands'
+        elif c < 0.9:
+            # the looping / string / process-switch instructions with hostile r0-r2, PCBP, ISP
+            o = r.choice([OP['MOVBLW'], OP['STREND'], OP['STRCPY'], OP['CALLPS'], OP['RETPS'], OP['RETG'], OP['GATE'], OP['INTACK'], OP['ENBVJMP'],
+                          OP['SAVE'], OP['RESTORE'], OP['CALL'], OP['RET'], 0x00, 0x2e, 0x2f, 0x14])
+            code = ([o] if o < 0x100 else [o >> 8, o & 0xff]) + reg(r.randrange(12)) + absa(r.choice(HOSTILE_PTR)) + [0x70] * 4
+            regs[2] = r.choice([0, 1, 2, 0x40000, 0xffffffff, 0x3ffff])
+            regs[11] = regs[11] & ~0x1800 if r.random() < 0.7 else regs[11]
+            kind = 'loops-and-switches'
+        else:
+            # divide / modulo with every zero / minimum combination at all sizes and expanded types
+            o = OP[r.choice(['DIV', 'MOD']) + r.choice('WHB') + r.choice('23')]
+            a = r.choice([0, 1, 0xff, 0xffff, 0xffffffff, 0x100, 0x10000, 0x80, 0x8000, 0x80000000])
+            b = r.choice([0, 0x80, 0x8000, 0x80000000, 0xff, 0xffff, 0xffffffff, 1])
+            regs[0], regs[1] = a, b
+            ops3 = [r.choice([reg(0), ex(r.choice(list(ETYPE)), reg(0)), immw(a)]), r.choice([reg(1), ex(r.choice(list(ETYPE)), reg(1))]), reg(2)]
+            code = [o] + sum(ops3[:(3 if o >= 0xe0 else 2)], []) + [0x70] * 4
+            kind = 'divide'
+        pre = duart_writes()
+        # Bus::load is a host-side set-up call (not part of the property): only load where the code fits in a memory device
+        ops = []
+        room = 0
+        for lo, hi in ((0, 0x20000), (0x600000, 0x602000), (0x700000, 0x800000)):
+            if lo <= pc < hi:
+                room = hi - pc
+        if room > 0:
+            ops.append('ld:%x:%s' % (pc, hexs(code[:room])))
+        for i2 in sorted(regs):
+            ops.append('r:%x:%x' % (i2, regs[i2]))
+        ops.append('r:f:%x' % pc)
+        ops += pre + ['k:%x' % r.choice([0, 1000, 1000000, 20000000]), 'st', 'st']
+        g.add(ops, kind)
+    # host-side bus reads at any address and width, and host input calls with any argument
+    for i in range(300 if tier == 'quick' else 20000):
+        ops = []
+        for _ in range(12):
+            a = r.choice(HOSTILE_PTR) + r.randrange(-4, 5) if r.random() < 0.7 else r.randrange(1 << 34)
+            a = max(0, a)
+            ops.append(r.choice(['db', 'dw', 'rb', 'rh', 'rw', 'oh', 'ow']) + ':%x' % a)
+            if r.random() < 0.3:
+                ops.append(r.choice(['wb', 'wh', 'ww']) + ':%x:%x' % (a, r.randrange(1 << 32)))
+        ops += ['mm:%x:%x' % (r.randrange(65536), r.randrange(65536)), 'md:%x' % r.randrange(256), 'mu:%x' % r.randrange(256), 'qa:%x' % r.randrange(256),
+                'qb:%x' % r.randrange(256), 'ns:%x:%x' % (r.randrange(1 << 32), r.choice([0, 1, 8191, 8192, 8193, 20000])), 'ng', 'vr', 'vd', 'pa', 'pb',
+                'g1:%x' % r.randrange(256), 'wh:500000:%x' % r.choice([0, 0xffff, 0xf9c0, 0xf9c1, 0x8000]), 'vr', 'rs:%x' % r.randrange(256), 'gp']
+        g.add(ops, 'host-api')
+    return g.result('Hostile single steps through Cpu::step_with_error under catch_unwind: random byte strings as code; every defined opcode with '
+                    'random descriptors and operands pointing at device, unmapped, edge-of-device and unaligned addresses; looping / string / '
+                    'process-switch instructions with hostile r0-r2, PCBP, ISP; divide / modulo with every zero / minimum combination and '
+                    'expanded types; arbitrary register files (pointers into every device and hole); code placed at RAM / ROM / NVRAM edges; '
+                    'random DUART register writes and host events before the step.  Host API: bus reads and writes of every width at and around '
+                    'every device boundary and above 2^32, Dmd::read_*, mouse / keyboard / RS-232 / NVRAM (0..20000 bytes) / video / reset calls '
+                    'with arbitrary arguments.')
+
+
+def mon_c12(case, obs):
+    out, fin = monitors.split_obs(obs)
+    toks = case.split()[1:]
+    for i, o in enumerate(out):
+        if o == 'p':
+            return 'host panic at op %d (%s)' % (i, toks[i] if i < len(toks) else '?')
+        if o == 'FUEL':
+            return 'instruction did not terminate at op %d' % i
+    return None
+
+
+PROPS['C12'] = {'gen': gen_c12, 'monitors': [mon_c12]}
 PROPS['C05'] = {'gen': gen_c05, 'monitors': [mon_c05]}
 PROPS['C02'] = {'gen': gen_c02, 'monitors': []}
 PROPS['C03'] = {'gen': gen_c03, 'monitors': []}
